@@ -1,7 +1,9 @@
 (* Run/C06.v — Sx codec around Model/DiskTree.v (both stores of DiskCache over one tree) for the
    correspondence check.
    leg disk:
-     case   = ( cap order ( init ... ) ( thread ... ) ( tid ... ) )
+     case   = ( cap order ( init ... ) ( thread ... ) ( tid ... ) [ ( key ... ) ] )
+              the optional last list names keys whose shard directory <root>/x/y is a mount point: the final
+              rename of every put into such a shard fails
      init   = ( main key pid plen elen mtime )   entry file of the result store at make_key_path key
             | ( pp   key pid plen elen mtime )   entry file of the nested store at preprocessor/a/b/c/key
             | ( raw  path pid plen elen mtime )  any other file, path relative to the cache root
@@ -72,12 +74,15 @@ Definition mk_disk (init : list (ikind * list N * N * N * N)) : disk :=
                d_next_h := 0; d_clock := 1000 |}.
 
 (* thread, and what it declares: inl = result store, inr = nested store *)
-Definition dec_thread (x : sx) : option (tthread * option (decl + decl)) :=
+Definition same_shard (a b : list N) : bool := bytes_eqb (firstn 2 a) (firstn 2 b).
+
+Definition dec_thread (nr : list (list N)) (x : sx) : option (tthread * option (decl + decl)) :=
   match x with
   | SL [t; k; pid; _; elen; nch; fl] =>
       if is_sym "put" t then
-        Some (TMain (TPut (make_key_path (get_B k)) (get_N elen)
-                          (chunks_of (get_N pid) (get_N elen) (get_N nch) (get_bool fl)) (get_bool fl)),
+        Some ((if existsb (same_shard (get_B k)) nr then TMainNR else TMain)
+                (TPut (make_key_path (get_B k)) (get_N elen)
+                      (chunks_of (get_N pid) (get_N elen) (get_N nch) (get_bool fl)) (get_bool fl)),
               Some (inl (get_B k, get_N pid, get_N elen)))
       else None
   | SL [t; k; pid; _; elen; nch] =>
@@ -92,11 +97,11 @@ Definition dec_thread (x : sx) : option (tthread * option (decl + decl)) :=
   | _ => None
   end.
 
-Fixpoint dec_threads (l : list sx) : option (list tthread * list decl * list decl) :=
+Fixpoint dec_threads (nr : list (list N)) (l : list sx) : option (list tthread * list decl * list decl) :=
   match l with
   | [] => Some ([], [], [])
   | x :: r =>
-      match dec_thread x, dec_threads r with
+      match dec_thread nr x, dec_threads nr r with
       | Some (th, d), Some (ths, ds, ps) =>
           Some (th :: ths,
                 match d with Some (inl d) => d :: ds | _ => ds end,
@@ -145,8 +150,8 @@ Definition enc_pres (r : pres) : sx :=
 
 Definition enc_thread (ds ps : list decl) (kx : list N) (th : tthread) : sx :=
   match th with
-  | TMain (TPutDone r) => enc_pres r
-  | TMain (TGetDone _ r) => enc_gres ds kx r
+  | TMain (TPutDone r) | TMainNR (TPutDone r) => enc_pres r
+  | TMain (TGetDone _ r) | TMainNR (TGetDone _ r) => enc_gres ds kx r
   | TPpPutDone r => enc_pres r
   | TPpGetDone _ r => enc_gres ps kx r
   | _ => sym "unfinished"
@@ -194,10 +199,8 @@ Definition obs6 (order : bool) (ds ps : list decl) (t : tst) (mk pk : list (list
         enc_index (inited (base t2)) (index (lru (base t2)));
         enc_index (pp_inited t2) (index (pps t2))]).
 
-Definition run_c06 (x : sx) : sx :=
-  match x with
-  | SL [c; ord; SL init; SL ths; SL sched] =>
-      match dec_threads ths with
+Definition run_case (c ord : sx) (init ths sched : list sx) (nr : list (list N)) : sx :=
+      match dec_threads nr ths with
       | Some (threads, tds, tps) =>
           let ini := map dec_init init in
           let dsel := fun kd => map (fun e => let '(_, k, pid, elen, _) := e in (k, pid, elen))
@@ -216,7 +219,12 @@ Definition run_c06 (x : sx) : sx :=
           let '(_, o2) := obs6 (get_bool ord) ds ps (trestart (get_N c) s1) mk pk in
           SL (SL rs :: o1 ++ o2)
       | None => err "bad thread"
-      end
+      end.
+
+Definition run_c06 (x : sx) : sx :=
+  match x with
+  | SL [c; ord; SL init; SL ths; SL sched] => run_case c ord init ths sched []
+  | SL [c; ord; SL init; SL ths; SL sched; SL nr] => run_case c ord init ths sched (map get_B nr)
   | _ => err "bad case"
   end.
 
